@@ -54,12 +54,212 @@ def script_out(salt, a, b):
     return SCRIPT_TABLE[h % 16]
 
 
+
+# ----------------------------------------------------------------------------- factors and pairwise covering array
+FACTORS = {
+    "mode": ["direct", "line", "tree", "linetree"],
+    "boundary": ["none", "open", "periodic", "shear"],
+    "ghost": ["0", "1", "2"],                         # largest N_ghost over the axes: 0, 1, >= 2 (clamped to the inner ring)
+    "radii": ["add", "edited"],                       # radii given to reb_simulation_add / assigned afterwards
+    "drive": ["step", "bare_eq", "bare_lt", "bare_gt", "leapfrog", "mercurius", "trace"],
+    "resolver": ["script", "merge", "hs", "hs_cb", "halt"],
+    "gravtree": [0, 1],
+    "ks": [0, 1],
+    "teo": [0, 1],
+    "nact": [0, 1],
+    "tpt": [0, 1],
+    "dtsign": ["+", "-"],
+    "nroot": ["single", "multi"],
+    "geom": ["cluster", "flyby", "impact", "passthrough"],
+    "mcv": [0, 1],
+    "nvar": [0, 1],
+    "touch": [0, 1],
+    "com": [0, 1],
+}
+CORE3 = ("mode", "boundary", "ghost", "radii", "drive")      # 3-way coverage in the thorough tier
+
+
+def pair_excluded(fa, va, fb, vb):
+    """reason why the pair of factor values cannot occur together (None: applicable).  Listed explicitly, never silently."""
+    d = {fa: va, fb: vb}
+    g = d.get
+    tree_mode = g("mode") in ("tree", "linetree")
+    hyb = g("drive") in ("mercurius", "trace")
+    if g("boundary") == "none" and g("ghost") in ("1", "2"):
+        return "boundary none: every ghost box is the zero vector (images coincide)"
+    if hyb and tree_mode:
+        return "MERCURIUS/TRACE refuse tree collision searches"
+    if g("drive") == "mercurius" and g("mode") == "line":
+        return "MERCURIUS only supports the direct search (the LINE loop ignores its encounter map)"
+    if hyb and g("gravtree") == 1:
+        return "hybrids force keep_sorted, which reb_simulation_remove_particle refuses when a tree exists"
+    if hyb and g("geom") in ("impact", "passthrough"):
+        return "impact / pass-through families need a tree mode or a bare LINE search with integrator none"
+    if g("geom") == "impact" and (g("mode") in ("direct", "line") or (g("drive") is not None and g("drive") != "leapfrog") or g("boundary") == "shear" or g("gravtree") == 1):
+        return "impact family = tree modes x full leapfrog step, force-free, no shear"
+    if g("geom") == "passthrough" and (g("mode") in ("direct", "tree") or (g("drive") is not None and not str(g("drive")).startswith("bare")) or g("boundary") == "shear"):
+        return "pass-through family = LINE/LINETREE x bare search, no shear"
+    if g("geom") in ("impact", "passthrough") and (g("touch") == 1 or g("nvar") == 1):
+        return "family replaces the particle set"
+    if g("nvar") == 1 and (tree_mode or g("gravtree") == 1):
+        return "variational particles are added at identical coordinates: the tree refuses them"
+    if g("nvar") == 1 and g("drive") in ("leapfrog", "mercurius", "trace"):
+        return "no variational equations for these integrators in this configuration"
+    if g("nvar") == 1 and g("resolver") == "merge":
+        return "removal refused with variational particles (error) after the merge has been applied"
+    if g("com") == 1 and (g("boundary") in ("open", "periodic", "shear") or tree_mode or g("gravtree") == 1 or hyb):
+        return "far-away centre of mass needs no box test: boundary none, no tree, integrator none/leapfrog"
+    if g("com") == 1 and g("geom") == "impact":
+        return "impact family needs a tree mode, far-away centre of mass excludes trees"
+    if g("com") == 1 and (g("nroot") == "multi" or g("ghost") in ("1", "2")):
+        return "far-away centre of mass: box geometry not applicable"
+    if g("drive") in ("leapfrog",) and g("nvar") == 1:
+        return "leapfrog without variational support"
+    return None
+
+
+def repair(f):
+    """drop demanded values until no excluded pair is left (the most specific factors give way first)"""
+    order = ["com", "nvar", "touch", "geom", "gravtree", "ghost", "nroot", "resolver", "drive", "mode"]
+    f = dict(f)
+    for victim in order:
+        names = list(f)
+        bad = False
+        for i, a in enumerate(names):
+            for b in names[i + 1:]:
+                if pair_excluded(a, f[a], b, f[b]) and victim in (a, b):
+                    bad = True
+        if bad:
+            f[victim] = {"com": 0, "nvar": 0, "touch": 0, "geom": "cluster", "gravtree": 0, "ghost": "0", "nroot": "single",
+                         "resolver": "script", "drive": "bare_eq", "mode": "direct"}[victim]
+    return f
+
+
+def choose_res(spec):
+    kinds = ["script", "script", "script", "merge", "merge", "hs", "halt"]
+    if "res" in spec:
+        return tuple(spec["res"])
+    kind = kinds[spec["seed"] % len(kinds)]
+    if kind == "script":
+        return ("script", spec["seed"] % 1000)
+    if kind == "hs":
+        return ("hs", [None, 1.0, 0.5, 0.0][(spec["seed"] // 7) % 4])
+    return (kind,)
+
+
+def factors_of(spec):
+    res = choose_res(spec)
+    if spec["integrator"] in ("mercurius", "trace", "leapfrog"):
+        drive = spec["integrator"]
+    elif spec["use_step"]:
+        drive = "step"
+    elif "dt_next" not in spec:
+        drive = "bare_eq"
+    else:
+        drive = "bare_lt" if abs(spec["dt_next"]) < abs(spec["dt"]) else "bare_gt"
+    return {"mode": spec["collision"], "boundary": spec["boundary"], "ghost": str(min(2, max(spec["nghost"]))),
+            "radii": "edited" if spec.get("r_after_add") else "add", "drive": drive,
+            "resolver": ("hs_cb" if (res[0] == "hs" and res[1] is not None) else res[0]) if res[0] != "zero" else "script",
+            "gravtree": int(spec["gravity"] == "tree"), "ks": int(bool(spec["ks"])), "teo": int(bool(spec.get("teo"))),
+            "nact": int(spec.get("n_active") is not None), "tpt": int(bool(spec.get("tpt"))), "dtsign": "+" if spec["dt"] > 0 else "-",
+            "nroot": "multi" if spec.get("nroot", [1, 1, 1]) != [1, 1, 1] else "single", "geom": spec.get("geom", "cluster"),
+            "mcv": int("mcv" in spec), "nvar": int(bool(spec.get("nvar"))), "touch": int(bool(spec.get("exact_touch"))),
+            "com": int(bool(spec.get("com_offset")))}
+
+
+PAIRS_SEEN = set()
+TRIPLES_SEEN = set()
+
+
+def note_factors(fv):
+    names = sorted(fv)
+    for i, a in enumerate(names):
+        for b in names[i + 1:]:
+            PAIRS_SEEN.add((a, fv[a], b, fv[b]))
+    core = [n for n in names if n in CORE3]
+    for i, a in enumerate(core):
+        for j in range(i + 1, len(core)):
+            for k in range(j + 1, len(core)):
+                b, cc = core[j], core[k]
+                TRIPLES_SEEN.add((a, fv[a], b, fv[b], cc, fv[cc]))
+
+
+def all_pairs():
+    names = sorted(FACTORS)
+    tot, exc = [], []
+    for i, a in enumerate(names):
+        for b in names[i + 1:]:
+            for va in FACTORS[a]:
+                for vb in FACTORS[b]:
+                    (exc if pair_excluded(a, va, b, vb) else tot).append((a, va, b, vb))
+    return tot, exc
+
+
+def all_triples():
+    core = sorted(CORE3)
+    tot, exc = [], []
+    for i, a in enumerate(core):
+        for j in range(i + 1, len(core)):
+            for k in range(j + 1, len(core)):
+                b, cc = core[j], core[k]
+                for va in FACTORS[a]:
+                    for vb in FACTORS[b]:
+                        for vc in FACTORS[cc]:
+                            bad = pair_excluded(a, va, b, vb) or pair_excluded(a, va, cc, vc) or pair_excluded(b, vb, cc, vc)
+                            (exc if bad else tot).append((a, va, b, vb, cc, vc))
+    return tot, exc
+
+
+def covering_forces(rng, n, triples=False):
+    """greedy all-pairs: n times, take from 40 random (repaired) candidates the one that covers most pairs not planned yet"""
+    planned, planned3 = set(), set()
+    out = []
+    names = sorted(FACTORS)
+    core = sorted(CORE3)
+    for _ in range(n):
+        best, bestscore = None, -1
+        for _c in range(40):
+            f = repair({k: rng.choice(FACTORS[k]) for k in names})
+            sc = 0
+            for i, a in enumerate(names):
+                for b in names[i + 1:]:
+                    if (a, f[a], b, f[b]) not in planned:
+                        sc += 1
+            if triples:
+                for i, a in enumerate(core):
+                    for j in range(i + 1, len(core)):
+                        for k in range(j + 1, len(core)):
+                            if (a, f[a], core[j], f[core[j]], core[k], f[core[k]]) not in planned3:
+                                sc += 1
+            if sc > bestscore:
+                best, bestscore = f, sc
+        out.append(best)
+        for i, a in enumerate(names):
+            for b in names[i + 1:]:
+                planned.add((a, best[a], b, best[b]))
+        for i, a in enumerate(core):
+            for j in range(i + 1, len(core)):
+                for k in range(j + 1, len(core)):
+                    planned3.add((a, best[a], core[j], best[core[j]], core[k], best[core[k]]))
+    return out
+
+
 # ----------------------------------------------------------------------------- scenario generator
-def gen_spec(rng, idx, thorough=False):
+def gen_spec(rng, idx, thorough=False, force=None):
+    """`force`: factor values demanded by the pairwise covering array (see FACTORS); a demanded value that the
+    configuration cannot carry (constraints listed in `pair_excluded`) is dropped — coverage is counted on `factors_of(spec)`."""
+    F = force or {}
+
+    def ch(name, p):
+        return bool(F[name]) if name in F else rng.chance(p)
     L = rng.choice([8.0, 10.0, 20.0, 50.0])
-    collision = MODES[idx % 4]
-    boundary = rng.choice(["periodic", "periodic", "periodic", "none", "open", "shear"])
-    if boundary in ("periodic", "shear"):
+    collision = F.get("mode") or MODES[idx % 4]
+    boundary = F.get("boundary") or rng.choice(["periodic", "periodic", "periodic", "none", "open", "shear"])
+    if "ghost" in F:
+        nghost = {"0": (0, 0, 0), "1": rng.choice([(1, 1, 1), (1, 1, 0), (1, 0, 0)]), "2": rng.choice([(2, 1, 0), (2, 2, 2)])}[F["ghost"]]
+        if boundary == "none":
+            nghost = (0, 0, 0)      # all ghost boxes of boundary none are the zero vector: excluded pair
+    elif boundary in ("periodic", "shear"):
         nghost = rng.choice([(1, 1, 1), (1, 1, 1), (1, 1, 0), (2, 1, 0), (1, 0, 0), (0, 0, 0), (2, 2, 2)])
     else:
         nghost = (0, 0, 0)
@@ -91,6 +291,8 @@ def gen_spec(rng, idx, thorough=False):
         else:
             cen = [rng.uniform(-L / 4, L / 4) for _ in range(3)]
         shape = rng.choice(["chain", "clump", "clump", "star", "flyby"] if collision in ("line", "linetree") else ["chain", "clump", "clump", "star", "star", "flyby"])
+        if "geom" in F:
+            shape = "flyby" if F["geom"] == "flyby" else rng.choice(["chain", "clump", "star"])
         pos = []
         d = [rng.normal() for _ in range(3)]
         dn = math.sqrt(sum(x * x for x in d)) or 1.0
@@ -168,7 +370,7 @@ def gen_spec(rng, idx, thorough=False):
                           vx=rng.normal(), vy=rng.normal(), vz=rng.normal(), m=rng.loguniform(1e-3, 1.0),
                           r=rng.choice([0.0, 1e-3 * L, 1e-2 * L])))
     # exactly touching pair (dyadic coordinates: r2 == (r1+r2)^2 exactly) — decided by the model tie, not the oracle
-    exact_touch = rng.chance(0.12)
+    exact_touch = ch("touch", 0.12)
     if exact_touch:
         sft = L / 64.0
         base = [rng.randint(-8, 8) * L / 32.0 for _ in range(3)]
@@ -179,7 +381,7 @@ def gen_spec(rng, idx, thorough=False):
     # non-square root-box layout: the base box becomes one root cell of a larger box (shift BEFORE wrapping, so that
     # clusters generated at the faces of the base box straddle root-box faces)
     nroot = [1, 1, 1]
-    if boundary != "shear" and rng.chance(0.25):
+    if (F["nroot"] == "multi") if "nroot" in F else (boundary != "shear" and rng.chance(0.25)):
         nroot = list(rng.choice([(2, 1, 1), (1, 2, 1), (2, 2, 1), (1, 2, 3), (3, 1, 2), (2, 2, 2)]))
         for ai, a in enumerate("xyz"):
             sh = -nroot[ai] * L / 2 + L / 2 + rng.randint(0, nroot[ai] - 1) * L
@@ -206,34 +408,51 @@ def gen_spec(rng, idx, thorough=False):
     rng.shuffle(parts)
     n = len(parts)
     integ = "none"
-    if collision == "direct" and boundary == "none" and rng.chance(0.5):
+    if "drive" in F:
+        if F["drive"] == "mercurius" and collision == "direct":
+            integ = "mercurius"
+        if F["drive"] == "trace" and collision in ("direct", "line"):
+            integ = "trace"
+    elif collision == "direct" and boundary == "none" and rng.chance(0.5):
         integ = rng.choice(["mercurius", "trace"])      # keep_sorted forced, Ninner = 1
+    if "gravtree" in F:
+        grav = "tree" if (F["gravtree"] and integ == "none") else "none"
+    else:
+        grav = "tree" if (collision in ("direct", "line") and rng.chance(0.25) and integ == "none") else "none"
+    dtc = rng.choice([0.01, 0.1, -0.05, 1.0])
+    if "dtsign" in F:
+        dtc = rng.choice([0.01, 0.1, 1.0]) if F["dtsign"] == "+" else rng.choice([-0.05, -0.01, -0.5])
+    if "drive" in F:
+        ustep = int(F["drive"] in ("step", "leapfrog"))
+    else:
+        ustep = int(rng.chance(0.6))
     spec = dict(box=L, boundary=boundary, nghost=list(nghost), collision=collision,
-                gravity=("tree" if (collision in ("direct", "line") and rng.chance(0.25) and integ == "none") else "none"),
-                integrator=integ, dt=rng.choice([0.01, 0.1, -0.05, 1.0]) * (1.0 if boundary != "shear" else 0.1),
-                ks=int(rng.chance(0.5)), n_active=(rng.randint(1, n) if rng.chance(0.3) else None),
-                seed=rng.randint(0, 2 ** 32 - 1), parts=parts, use_step=int(rng.chance(0.6)),
+                gravity=grav,
+                integrator=integ, dt=dtc * (1.0 if boundary != "shear" else 0.1),
+                ks=int(ch("ks", 0.5)), n_active=(rng.randint(1, n) if ch("nact", 0.3) else None),
+                seed=rng.randint(0, 2 ** 32 - 1), parts=parts, use_step=ustep,
                 t0=rng.choice([0.0, 1.5, 7.25]), omega=(rng.choice([1.0, 0.37, 1e-3, 1e-3]) if boundary == "shear" else 0.0),
-                r_after_add=0, nroot=nroot, exact_touch=int(exact_touch), tpt=int(rng.chance(0.3)))
+                r_after_add=0, nroot=nroot, exact_touch=int(exact_touch), tpt=int(ch("tpt", 0.3)), geom=("flyby" if any(isinstance(p["vx"], tuple) for p in parts) else "cluster"))
     for k, p in enumerate(parts_unshuffled):
         if isinstance(p["vx"], tuple):
             prev = parts_unshuffled[k - 1]
             rel = p["vx"][1]
             p["vx"], p["vy"], p["vz"] = [prev[a] - rel[i] / spec["dt"] for i, a in enumerate(("vx", "vy", "vz"))]
-    if rng.chance(0.25) and integ == "none":
+    if (F["radii"] == "edited") if "radii" in F else (rng.chance(0.25) and integ == "none"):
         # radii assigned after reb_simulation_add (sim.particles[i].r = R): nothing cached at add time may be trusted
         spec["r_after_add"] = 1
-    if spec["collision"] in ("tree", "linetree"):
+    if spec["collision"] in ("tree", "linetree") and "ks" not in F:
         spec["ks"] = 0 if rng.chance(0.9) else 1        # sorted removal + tree is rejected by the code (F4)
-    if spec["gravity"] == "tree" and spec["ks"] == 1 and rng.chance(0.8):
+    if spec["gravity"] == "tree" and spec["ks"] == 1 and "ks" not in F and rng.chance(0.8):
         spec["ks"] = 0
-    if boundary == "shear" and rng.chance(0.6):
+    if boundary == "shear" and "resolver" not in F and rng.chance(0.6):
         if nghost[0] == 0:
             spec["nghost"] = [1, 1, 0]
         spec["res"] = ["hs", rng.choice([None, 1.0, 0.5])]
     force_lf = False
     passthrough = False
-    if collision in ("line", "linetree") and boundary != "shear" and integ == "none" and rng.chance(0.3):
+    bare_ok = ("drive" not in F) or F["drive"].startswith("bare")
+    if collision in ("line", "linetree") and boundary != "shear" and integ == "none" and bare_ok and ((F["geom"] == "passthrough") if "geom" in F else rng.chance(0.3)):
         # pass-through family (bare search): two fast particles whose paths crossed DURING the step just done and that are
         # far apart now, each with slow bystanders next to its current position (refined cells).  The state is the one an
         # adaptive integrator leaves behind: the step proposed next (sim.dt) differs from the step done (dt_last_done)
@@ -268,15 +487,21 @@ def gen_spec(rng, idx, thorough=False):
             for a in "xyz":
                 p[a] = max(-0.49 * E[a], min(0.49 * E[a], p[a]))
         rng.shuffle(parts)
-        spec["n_active"] = None
+        spec["n_active"] = None if "nact" not in F or not F["nact"] else rng.randint(1, len(parts))
         spec["parts"] = parts
-        spec["gravity"] = "none"
         spec["use_step"] = 0
-        spec["r_after_add"] = 0
-    if integ == "none" and not spec["use_step"] and rng.chance(0.7):
+        spec["geom"] = "passthrough"
+        spec["exact_touch"] = 0
+    if "drive" in F:
+        if F["drive"] == "bare_lt" and not spec["use_step"]:
+            spec["dt_next"] = spec["dt"] * rng.choice([0.01, 0.05, 0.2, 0.5])
+        if F["drive"] == "bare_gt" and not spec["use_step"]:
+            spec["dt_next"] = spec["dt"] * rng.choice([2.0, 4.0])
+    elif integ == "none" and not spec["use_step"] and rng.chance(0.7):
         # bare search in the state an adaptive integrator leaves: dt (next step) != dt_last_done (step done)
         spec["dt_next"] = spec["dt"] * rng.choice([0.01, 0.05, 0.2, 0.5, 2.0, 4.0])
-    if not passthrough and collision in ("tree", "linetree") and boundary != "shear" and integ == "none" and rng.chance(0.2):
+    lf_ok = ("drive" not in F) or F["drive"] == "leapfrog"
+    if not passthrough and collision in ("tree", "linetree") and boundary != "shear" and integ == "none" and lf_ok and spec["gravity"] == "none" and ((F["geom"] == "impact") if "geom" in F else rng.chance(0.2)):
         # impact family: fast movers arriving from distant cells of the tree within one step, each with a slow
         # bystander next to its mid-step position (where the tree was last brought up to date) so that those cells
         # are refined; the pair overlaps only at the end of the step
@@ -309,37 +534,49 @@ def gen_spec(rng, idx, thorough=False):
             for a in "xyz":
                 p[a] = max(-0.49 * E[a], min(0.49 * E[a], p[a]))
         rng.shuffle(parts)
-        spec["n_active"] = None
+        spec["n_active"] = None if "nact" not in F or not F["nact"] else rng.randint(1, len(parts))
         spec["parts"] = parts
-        spec["gravity"] = "none"
+        spec["geom"] = "impact"
+        spec["exact_touch"] = 0
         force_lf = True
-    if integ == "none" and spec["gravity"] == "none" and boundary != "shear" and not passthrough and "dt_next" not in spec and (force_lf or rng.chance(0.35)):
+    want_lf = force_lf or ((F["drive"] == "leapfrog") if "drive" in F else (spec["gravity"] == "none" and boundary != "shear" and rng.chance(0.35)))
+    if integ == "none" and not passthrough and "dt_next" not in spec and want_lf and not spec.get("nvar"):
+        if spec["gravity"] == "tree":
+            spec["G"] = 0.0         # tree gravity machinery active (tree exists, gravity data updated) but force-free: straight paths
         # a full reb_simulation_step with a moving integrator: the designed configuration is the one at the END of
         # the step (positions are moved back by v*dt), so particles arrive from other cells of the tree
         spec["integrator"] = "leapfrog"
         spec["use_step"] = 1
         for p in parts:
             p["x"] -= p["vx"] * spec["dt"]; p["y"] -= p["vy"] * spec["dt"]; p["z"] -= p["vz"] * spec["dt"]
-            if boundary == "periodic":
+            if boundary in ("periodic", "shear"):
                 for a in "xyz":
                     p[a] = ((p[a] + E[a] / 2) % E[a]) - E[a] / 2
             else:
                 for a in "xyz":
                     p[a] = max(-0.49 * E[a], min(0.49 * E[a], p[a]))
-    if rng.chance(0.3) and "res" not in spec:
+    if ch("mcv", 0.3) and ("res" not in spec or "mcv" in F):
         spec["mcv"] = rng.loguniform(1e-3, 1e2)
-    if rng.chance(0.5):
+    if ch("teo", 0.5):
         spec["teo"] = 1                                   # track_energy_offset: merge must book the pair terms
-        spec["G"] = rng.choice([1.0, 6.674e-11, 39.47841760435743, 0.37])        # minimum_collision_velocity (hard-sphere clamp)
-    if collision == "direct" and integ == "none" and spec["gravity"] == "none" and rng.chance(0.12):
+        if "G" not in spec:
+            spec["G"] = rng.choice([1.0, 6.674e-11, 39.47841760435743, 0.37])        # minimum_collision_velocity (hard-sphere clamp)
+    if collision in ("direct", "line") and spec["integrator"] == "none" and spec["gravity"] == "none" and spec["geom"] in ("cluster", "flyby") and ch("nvar", 0.12):
         spec["nvar"] = 1                                # variational particles: removals are refused
-        spec["use_step"] = 0
+        if "drive" not in F:
+            spec["use_step"] = 0
         spec["res"] = ["script", spec["seed"] % 1000]
     if integ != "none":
         spec["use_step"] = 0
     if spec["ks"] == 1 and (spec["gravity"] == "tree" or collision in ("tree", "linetree")):
         spec["res"] = ["script", spec["seed"] % 1000]     # rejected configuration: only the scripted resolver
-    if boundary == "none" and collision in ("direct", "line") and spec["gravity"] == "none" and spec["integrator"] in ("none", "leapfrog") and rng.chance(0.4):
+    if "resolver" in F:
+        rv = F["resolver"]
+        if not (spec.get("nvar") and rv == "merge") and not (spec["ks"] == 1 and (spec["gravity"] == "tree" or collision in ("tree", "linetree")) and rv == "merge") \
+                and not (spec["integrator"] in ("mercurius", "trace") and spec["gravity"] == "tree"):
+            spec["res"] = {"script": ["script", spec["seed"] % 1000], "merge": ["merge"], "hs": ["hs", None],
+                           "hs_cb": ["hs", rng.choice([1.0, 0.5, 0.0])], "halt": ["halt"]}[rv]
+    if boundary == "none" and collision in ("direct", "line") and spec["gravity"] == "none" and spec["integrator"] in ("none", "leapfrog") and ch("com", 0.4):
         # centre of mass far from the origin and moving
         off = [rng.uniform(-1e3, 1e3) * L for _ in range(3)]
         boost = [rng.normal() * 10.0 for _ in range(3)]
@@ -527,7 +764,7 @@ def run_real(W, spec, res, steps=1):
             W.clib.reb_collision_search(ctypes.byref(sim))
         per_step.append(dict(pre=pre, calls=calls[n0:], post=pstate(sim), t=sim.t))
     return dict(sim=sim, calls=calls, hsrec=hsrec, state=pstate(sim), seed=sim.rand_seed, N=sim.N,
-                N_active=sim.N_active, nvar=sim.N_var, t=sim.t, dtl=sim.dt_last_done, tree=bool(sim._tree_root),
+                N_active=sim.N_active, nvar=sim.N_var, eo=sim.energy_offset, G=sim.G, t=sim.t, dtl=sim.dt_last_done, tree=bool(sim._tree_root),
                 maxr=(sim.max_radius[0], sim.max_radius[1]), maxr_pre=maxr_pre, per_step=per_step, cb=cb,
                 eorec=eorec, freed=freed)
 
@@ -608,7 +845,7 @@ def f_line(spec, mode, state, tab, tree, res, dtl, t, ninner, given=(), nvar=0, 
     elif res[0] == "hs":
         toks += ["hs", d2h(res[1] if res[1] is not None else 1.0), d2h(spec.get("mcv", 0.0)), RESFLAGS["hs"]]
     elif res[0] == "merge":
-        toks += ["merge", RESFLAGS["merge"]]
+        toks += ["merge", RESFLAGS["merge"], "1" if spec.get("teo") else "0", d2h(spec.get("G", 1.0))]
     else:
         toks += [res[0]]
     toks += [str(ninner)] + ring_tokens(spec, tab)
@@ -651,7 +888,8 @@ def parse_f(line):
     for i in range(n):
         q = t[pos:pos + 11]; pos += 11
         ps.append((int(q[0]), int(q[1]), tuple(q[2:11])))
-    return dict(seed=seed, calls=calls, N=n, N_active=na, err=err, ps=ps)
+    eo = t[pos + 1] if pos < len(t) and t[pos] == "E" else None
+    return dict(seed=seed, calls=calls, N=n, N_active=na, err=err, ps=ps, eo=eo)
 
 
 def gbhex(g):
@@ -901,19 +1139,8 @@ def scenario(c, W, exe_lines, spec, tag, stats):
         checks.append(chk1t)
 
     # ---- phase B
-    kinds = ["script", "script", "script", "merge", "merge", "hs", "halt"]
-    kind = kinds[spec["seed"] % len(kinds)] if "res" not in spec else spec["res"][0]
-    if kind == "script":
-        res = ("script", spec["seed"] % 1000)
-    elif kind == "hs":
-        res = ("hs", [None, 1.0, 0.5, 0.0][(spec["seed"] // 7) % 4])
-    else:
-        res = (kind,)
-    if "res" in spec:
-        res = tuple(spec["res"])
-    if kind == "merge":
-        # two massless particles merging give 0/0 (recorded separately as F19): keep the generic scenarios in the domain
-        pass
+    res = choose_res(spec)
+    kind = res[0]
     B = run_real(W, spec, res)
     stats["resolver"][kind] = stats["resolver"].get(kind, 0) + 1
     stats["calls"] += len(B["calls"])
@@ -923,6 +1150,7 @@ def scenario(c, W, exe_lines, spec, tag, stats):
     if removed_any:
         stats["paths"][path] = stats["paths"].get(path, 0) + 1
     c.count(("fixup", path, kind, min(len(callsB), 10), min(n, 10)), nontrivial=(len(reported) >= 3 and removed_any))
+    note_factors(factors_of(spec))
     # ---- cross-cutting dimensions covered by this scenario
     rads = [p[8] for p in stateR]
     if spec.get("n_active") is not None and spec["n_active"] < n: dim("N_active<N")
@@ -1046,6 +1274,14 @@ def scenario(c, W, exe_lines, spec, tag, stats):
                     bad = "particle %d (id %d) field %d: model %s code %s" % (i, cp[0], k, mp[2][k], ch[k]); break
                 if bad:
                     break
+        if not bad and m.get("eo") is not None and spec["integrator"] not in ("mercurius", "trace"):
+            # energy_offset booked by the mergers (track_energy_offset): model vs code
+            a, b = h2d(m["eo"]), B["eo"]
+            esc = max(abs(a), abs(b), 1e-300)
+            terms = sum(abs(0.5 * p_[7] * (p_[4] ** 2 + p_[5] ** 2 + p_[6] ** 2)) for p_ in stateA if p_[2] == p_[2]) + 1e-300
+            if m["eo"] != d2h(b) and not (a == a and b == b and abs(a - b) <= 64 * 2.3e-16 * max(esc, terms)):
+                bad = "energy_offset after the mergers: model %s code %s" % (m["eo"], d2h(b))
+            stats["tie_energy_offset"] = stats.get("tie_energy_offset", 0) + 1
         if bad:
             c.corr_break("post-search driver (%s, %s, %s): %s (%s)" % (col, path, kind, bad, tag),
                          dict(spec=spec, res=list(res), model_calls=got[:6], code_calls=callsB[:6]))
@@ -1650,6 +1886,250 @@ def restore_case(c, W, rng, idx, stats):
     c.count(("restore", spec["collision"], resolver, tree))
 
 
+
+# ----------------------------------------------------------------------------- event adjacency histories
+EVENTS = ["none", "user_remove", "user_remove_hash", "user_add_big", "edit_radii", "continue_on_copy", "continue_on_file",
+          "dt_change", "switch_resolver", "set_nactive"]
+EVPAIRS_SEEN = set()
+
+
+def event_sequences(rng, nseq, length):
+    planned = set()
+    out = []
+    for _ in range(nseq):
+        seq = [rng.choice(EVENTS)]
+        while len(seq) < length:
+            cands = [e for e in EVENTS if (seq[-1], e) not in planned] or EVENTS
+            e = rng.choice(cands)
+            planned.add((seq[-1], e))
+            seq.append(e)
+        out.append(seq)
+    return out
+
+
+def event_history(c, W, rng, idx, seq, stats):
+    """one event before every step (user removal by index / by hash, user add of a larger body, radii edited, continuing on a
+    copy() / on a file restore, dt change, resolver switch, N_active set) — every ordered pair of events occurs in adjacent
+    steps somewhere.  Every step is first done on a copy() with a record-only resolver (search-time state, pairs found:
+    brute-force oracle), then on the simulation itself with the real resolver (calls must be found pairs; accounting; sums)."""
+    import tempfile
+    rb = W.rebound
+    spec = gen_history_spec(rng, idx)
+    mode = spec["collision"]
+    sim = make_sim(W, spec)
+    resolver = ["merge"]
+    line = mode in ("line", "linetree")
+    prev = None
+    for stepno, ev in enumerate(seq):
+        n = sim.N
+        tree = bool(sim._tree_root)
+        try:
+            if ev == "user_remove" and n >= 3:
+                sim.remove(index=rng.randint(0, n - 1), keep_sorted=bool(spec["ks"]) and not tree)
+                ENTRY_USED.add("reb_simulation_remove_particle")
+            elif ev == "user_remove_hash" and n >= 3:
+                h = int(sim._particles[rng.randint(0, n - 1)]._hash)
+                W.clib.reb_simulation_remove_particle_by_hash.restype = ctypes.c_int
+                W.clib.reb_simulation_remove_particle_by_hash(ctypes.byref(sim), ctypes.c_uint32(h), int(bool(spec["ks"]) and not tree))
+                ENTRY_USED.add("reb_simulation_remove_particle_by_hash")
+            elif ev == "user_add_big":
+                Lb = spec["box"]
+                big = max(list(sim.max_radius) + [1e-3 * Lb]) * 1.5
+                sim.add(m=1.0, r=big, x=rng.uniform(-0.4, 0.4) * Lb, y=rng.uniform(-0.4, 0.4) * Lb, z=rng.uniform(-0.4, 0.4) * Lb,
+                        vx=rng.normal(), hash=800000 + stepno)
+            elif ev == "edit_radii" and n >= 1:
+                q = sim._particles[rng.randint(0, n - 1)]
+                q.r = q.r * 3.0 + 1e-3 * spec["box"]
+            elif ev == "continue_on_copy":
+                sim = sim.copy()
+            elif ev == "continue_on_file":
+                fn = os.path.join(tempfile.gettempdir(), "c13_ev_%d_%d.bin" % (os.getpid(), idx))
+                if os.path.exists(fn):
+                    os.remove(fn)
+                sim.save_to_file(fn)
+                sim = rb.Simulation(fn)
+                os.remove(fn)
+            elif ev == "dt_change":
+                sim.dt = sim.dt * rng.choice([0.5, 2.0, -1.0])
+            elif ev == "switch_resolver":
+                resolver[0] = "hardsphere" if resolver[0] == "merge" else "merge"
+            elif ev == "set_nactive" and n >= 1:
+                sim.N_active = rng.randint(1, n)
+        except RuntimeError:
+            pass                # e.g. the tree refuses a (near-)coincident particle: reported by the code
+        try:
+            sim.process_messages()
+        except Exception:
+            pass
+        # ---- phase A: the same step on a copy with a record-only resolver
+        simc = sim.copy()
+        callsA = []
+
+        def cbA(simp, col):
+            s_ = simp.contents
+            callsA.append((int(s_._particles[col.p1]._hash), int(s_._particles[col.p2]._hash), gbhex((col.gb.x, col.gb.y, col.gb.z, col.gb.vx, col.gb.vy, col.gb.vz)), col.p1, col.p2))
+            return 0
+        simc.collision_resolve = cbA
+        W.clib.reb_simulation_step(ctypes.byref(simc))
+        stateA = pstate(simc)
+        tab = gb_table(W, simc)
+        tabhex = [gbhex(g) for g in tab]
+        img_of = {}
+        for im in images(spec):
+            img_of.setdefault(tabhex[(im[0] + 1) * 9 + (im[1] + 1) * 3 + (im[2] + 1)], im)
+        if not any(p[2] != p[2] for p in stateA):
+            rep = set((p1, p2, img_of.get(g)) for (_, _, g, p1, p2) in callsA)
+            orc = oracle_pairs(spec, stateA, tab, simc.dt_last_done, line)
+            for key, cls in orc.items():
+                i, j, im = key
+                if mode == "line" and not i < j:
+                    continue
+                if cls == "yes" and key not in rep and not (mode in ("tree", "linetree") and (j, i, (-im[0], -im[1], -im[2])) in rep):
+                    c.violation("missed-pair:after-%s:%s" % (ev, mode), "step %d after event %s (previous: %s): pair (%d,%d) image %s %s but is not handed to the resolver"
+                                % (stepno, ev, prev, i, j, im, "came within r1+r2" if line else "overlaps while approaching"), dict(spec=spec, events=seq, step=stepno))
+                elif cls == "no" and key in rep:
+                    c.violation("spurious-pair:after-%s:%s" % (ev, mode), "step %d after event %s: pair (%d,%d) image %s handed to the resolver without cause" % (stepno, ev, i, j, im),
+                                dict(spec=spec, events=seq, step=stepno))
+        if mode in ("tree", "linetree") and not h_holds(stateA, tuple(simc.max_radius)):
+            c.violation("max-radius-bookkeeping", "step %d after event %s: max_radius0/1 = %r do not bound the radii after a tree search" % (stepno, ev, list(simc.max_radius)),
+                        dict(spec=spec, events=seq, step=stepno))
+        # ---- phase B: the real step
+        found = {}
+        for (ha, hb, g, _, _) in callsA:
+            found[(ha, hb, g)] = found.get((ha, hb, g), 0) + 1
+        log = []
+
+        def cbB(simp, col):
+            s_ = simp.contents
+            ha, hb = int(s_._particles[col.p1]._hash), int(s_._particles[col.p2]._hash)
+            fnr = W.clib.reb_collision_resolve_merge if resolver[0] == "merge" else W.clib.reb_collision_resolve_hardsphere
+            out = fnr(simp, col)
+            log.append((ha, hb, gbhex((col.gb.x, col.gb.y, col.gb.z, col.gb.vx, col.gb.vy, col.gb.vz)), out))
+            return out
+        sim.collision_resolve = cbB
+        pre = pstate(sim)
+        W.clib.reb_simulation_step(ctypes.byref(sim))
+        post = pstate(sim)
+        alive = set(p[0] for p in stateA)
+        nm = 0
+        treeB = bool(sim._tree_root)
+        for (ha, hb, g, out) in log:
+            if found.get((ha, hb, g), 0) <= 0 and not (treeB and mode in ("tree", "linetree")):
+                c.violation("resolved-pair-not-found:after-" + ev, "step %d after event %s: resolver called with ids (%d,%d), not a pair found on the identical copy" % (stepno, ev, ha, hb),
+                            dict(spec=spec, events=seq, step=stepno))
+                break
+            found[(ha, hb, g)] = found.get((ha, hb, g), 0) - 1
+            if ha not in alive or hb not in alive:
+                c.violation("resolved-after-removal:after-" + ev, "step %d after event %s: ids (%d,%d), one already merged away" % (stepno, ev, ha, hb), dict(spec=spec, events=seq, step=stepno))
+                break
+            if out in (1, 2):
+                nm += 1
+                alive.discard(ha if out == 1 else hb)
+        live = [p[0] for p in post if p[2] == p[2]]
+        if len(live) != len(post):
+            c.violation(K_F17, "step %d after event %s: flagged particle (y=NaN) in the array at the step boundary" % (stepno, ev), dict(spec=spec, events=seq, step=stepno))
+        if spec["boundary"] == "periodic" and sorted(live) != sorted(alive) and not any(v != v for p in post for v in p[1:8]):
+            c.violation("lost-or-duplicated:after-" + ev, "step %d after event %s: ids %s, expected %s" % (stepno, ev, sorted(live), sorted(alive)), dict(spec=spec, events=seq, step=stepno))
+        if resolver[0] == "merge" and nm and spec["boundary"] == "periodic" and not any(v != v for p in post for v in p[1:8]):
+            M0, P0, _, _ = sums(stateA); M1, P1, _, _ = sums(post)
+            mv = math.fsum(abs(p[7]) * max(abs(p[4]), abs(p[5]), abs(p[6])) for p in stateA) + 1e-300
+            if not abs(M1 - M0) <= 1e-13 * (1 + nm) * abs(M0) or not max(abs(P1[k] - P0[k]) for k in range(3)) <= 1e-12 * (1 + nm) * mv:
+                c.violation("merge-conservation:after-" + ev, "step %d after event %s: mass %r -> %r, momentum %r -> %r over %d mergers" % (stepno, ev, M0, M1, P0, P1, nm),
+                            dict(spec=spec, events=seq, step=stepno))
+        stats["event_merges"] = stats.get("event_merges", 0) + nm
+        if prev is not None:
+            EVPAIRS_SEEN.add(("adj", prev, ev))
+        EVPAIRS_SEEN.add(("mode", mode, ev))
+        EVPAIRS_SEEN.add(("resolver", resolver[0], ev))
+        prev = ev
+    c.count(("events", mode, tuple(seq[:2])))
+
+
+# ----------------------------------------------------------------------------- public entry points
+ENTRY_USED = set()
+
+
+def entry_points(repo):
+    """public functions / Python spellings that reach the collision machinery, extracted from the current source"""
+    import re
+    hdr = open(os.path.join(repo, "src", "rebound.h")).read()
+    cfun = set(re.findall(r"^DLLEXPORT[^\n(]*?\b(reb_\w+)\s*\(", hdr, flags=re.M))
+    want = set(f for f in cfun if re.search(r"collision|remove_particle|^reb_simulation_step$|^reb_simulation_steps$|^reb_simulation_integrate$|configure_box|^reb_simulation_update_tree$|^reb_simulation_add$", f))
+    for h in ("collision.h", "boundary.h"):
+        want |= set(re.findall(r"^\w[\w\s\*]*?\b(reb_collision_search|reb_boundary_get_ghostbox)\s*\(", open(os.path.join(repo, "src", h)).read(), flags=re.M))
+    py = open(os.path.join(repo, "rebound", "simulation.py")).read()
+    m = re.search(r"^COLLISIONS\s*=\s*\{([^}]*)\}", py, flags=re.M)
+    modes = re.findall(r"\"(\w+)\"\s*:\s*(\d+)", m.group(1)) if m else []
+    blk = py[py.index("def collision_resolve(self, func)"):]
+    blk = blk[:blk.index("\n    @property")]
+    resolvers = re.findall(r"func\s*==\s*\"(\w+)\"", blk)
+    pyattrs = [a for a in ("collision_resolve_keep_sorted", "minimum_collision_velocity", "track_energy_offset", "energy_offset", "collisions_plog",
+                           "collisions_log_n", "N_ghost_x", "N_ghost_y", "N_ghost_z", "max_radius", "rand_seed", "coefficient_of_restitution",
+                           "free_particle_ap") if re.search(r"[\"']_?%s[\"']|def %s\(" % (a, a), py)]
+    return sorted(want), modes, resolvers, pyattrs
+
+
+def entry_smoke(c, W):
+    rb = W.rebound
+    cfun, modes, resolvers, pyattrs = entry_points(common.REPO)
+    c.cov["entry_points"] = {"c_functions": cfun, "collision_names": [m_[0] for m_ in modes], "resolver_names": resolvers, "python_attributes": pyattrs}
+    if len(cfun) < 13 or len(modes) < 5 or len(resolvers) < 3 or len(pyattrs) < 13:
+        c.broken.append("entry-point extraction found less than expected: %d C functions, %d collision names, %d resolver names, %d attributes" % (len(cfun), len(modes), len(resolvers), len(pyattrs)))
+    expect_calls = {"none": 0, "direct": 2, "tree": 2, "line": 1, "linetree": 2}
+    for name, val in modes:
+        for spelling in (name, int(val)):
+            sim = rb.Simulation()
+            sim.integrator = "none"; sim.dt = 0.1
+            sim.configure_box(10.0)
+            sim.collision = spelling
+            sim.add(m=1.0, r=1.0, x=-0.5, y=0.01, vx=1.0, hash=1)
+            sim.add(m=1.0, r=1.0, x=0.5, vx=-1.0, hash=2)
+            ncall = [0]
+
+            def cb(simp, col):
+                ncall[0] += 1
+                return 0
+            sim.collision_resolve = cb
+            W.clib.reb_simulation_step(ctypes.byref(sim))
+            if name in expect_calls and ncall[0] != expect_calls[name]:
+                c.violation("entry:collision=%r" % (spelling,), "sim.collision = %r: resolver called %d times for one overlapping approaching pair, expected %d" % (spelling, ncall[0], expect_calls[name]),
+                            dict(collision=spelling))
+            ENTRY_USED.add("collision=" + name)
+    # reb_simulation_steps and reb_simulation_integrate (+ the Collision exception of the halt resolver)
+    for fn in ("steps", "integrate"):
+        sim = rb.Simulation()
+        sim.integrator = "leapfrog"; sim.dt = 0.01
+        sim.collision = "direct"
+        sim.add(m=1.0, r=0.1, x=-0.5, vx=1.0, hash=1)
+        sim.add(m=1.0, r=0.1, x=0.5, vx=-1.0, hash=2)
+        if fn == "steps":
+            sim.collision_resolve = "merge"
+            W.clib.reb_simulation_steps.restype = None
+            W.clib.reb_simulation_steps(ctypes.byref(sim), ctypes.c_uint(60))
+            if sim.N != 1:
+                c.violation("entry:reb_simulation_steps", "60 steps towards a head-on collision with merge: N = %d" % sim.N, {})
+            ENTRY_USED.add("reb_simulation_steps")
+        else:
+            sim.collision_resolve = "halt"
+            raised = False
+            try:
+                sim.integrate(1.0)
+            except rb.Collision:
+                raised = True
+            if not raised or sim._status != 7:
+                c.violation("entry:integrate-halt", "integrate() with the halt resolver: Collision raised = %s, status %d" % (raised, sim._status), {})
+            ENTRY_USED.add("reb_simulation_integrate")
+    used_always = {"reb_simulation_configure_box", "reb_simulation_step", "reb_simulation_add", "reb_collision_search", "reb_boundary_get_ghostbox",
+                   "reb_collision_resolve_merge", "reb_collision_resolve_hardsphere", "reb_collision_resolve_halt", "reb_simulation_set_collision_resolve",
+                   "reb_simulation_update_tree", "reb_simulation_remove_particle"}      # called by scenario() / probes / switch_family on every run
+    missing = [f for f in cfun if f not in ENTRY_USED and f not in used_always]
+    missing += ["resolver=" + r_ for r_ in resolvers if DIMS.get("named_resolver_after_switching", 0) == 0]
+    missing += ["collision=" + m_[0] for m_ in modes if "collision=" + m_[0] not in ENTRY_USED]
+    c.cov["entry_points"]["not_exercised"] = missing
+    if missing:
+        c.broken.append("public entry points not exercised in this run: " + ", ".join(missing))
+
+
 # ----------------------------------------------------------------------------- corpus
 def corpus_specs():
     d = os.path.join(ROOT, "corpus", "C13")
@@ -1726,7 +2206,11 @@ def run(c):
             if "res" in replay and isinstance(replay["res"], list):
                 sp["res"] = replay["res"]
             specs = [("replay", sp)]
-    for i in range(ncases):
+    nforced = 0 if replay is not None else (6000 if c.thorough else 260)
+    forces = covering_forces(c.rng.fork(), nforced, triples=c.thorough)
+    for i, f in enumerate(forces):
+        specs.append(("cov%d" % i, gen_spec(c.rng.fork(), i, c.thorough, force=f)))
+    for i in range(max(0, ncases - nforced)):
         specs.append(("gen%d" % i, gen_spec(c.rng.fork(), i, c.thorough)))
     for i in range(0 if replay is not None else (16 if c.thorough else 3)):
         specs.append(("big%d" % i, gen_big_spec(c.rng.fork(), i)))
@@ -1788,15 +2272,37 @@ def run(c):
         for integ in ("mercurius", "trace", "whfast", "ias15"):
             for i in range(nint):
                 integrator_family(c, W, c.rng.fork(), integ, stats)
-        for i in range(240 if c.thorough else 32):
+        for i in range(240 if c.thorough else 24):
             integrate_split_case(c, W, c.rng.fork(), i, stats)
         for i in range(200 if c.thorough else 16):
             restore_case(c, W, c.rng.fork(), i, stats)
+        nseq = 120 if c.thorough else 20
+        for i, seq in enumerate(event_sequences(c.rng.fork(), nseq, 6)):
+            event_history(c, W, c.rng.fork(), i, seq, stats)
+        evtot = [("adj", a, b) for a in EVENTS for b in EVENTS] + [("mode", m_, e) for m_ in MODES for e in EVENTS] + [("resolver", r_, e) for r_ in ("merge", "hardsphere") for e in EVENTS]
+        evmiss = [e for e in evtot if e not in EVPAIRS_SEEN]
+        c.cov["event_pairs"] = {"covered": len(evtot) - len(evmiss), "total": len(evtot), "events": EVENTS, "missing": [list(m_) for m_ in evmiss[:12]]}
+        if c.thorough and evmiss:
+            c.broken.append("event adjacency coverage incomplete: %d of %d, e.g. %s" % (len(evmiss), len(evtot), evmiss[:3]))
+        entry_smoke(c, W)
         for nm in REQUIRED_DIMS:
             DIMS.setdefault(nm, 0)
             if DIMS[nm] == 0:
                 c.broken.append("dimension %s not covered" % nm)
     c.cov["dimensions"] = dict(sorted(DIMS.items()))
+    tot, exc = all_pairs()
+    miss = [p_ for p_ in tot if p_ not in PAIRS_SEEN]
+    c.cov["pairs"] = {"covered": len(tot) - len(miss), "total": len(tot), "excluded": len(exc), "factors": {k: len(v) for k, v in FACTORS.items()},
+                      "missing": [list(map(str, m_)) for m_ in miss[:25]],
+                      "excluded_reasons": sorted(set(pair_excluded(*e_) for e_ in exc))}
+    tot3, exc3 = all_triples()
+    miss3 = [t_ for t_ in tot3 if t_ not in TRIPLES_SEEN]
+    c.cov["triples_core"] = {"factors": list(CORE3), "covered": len(tot3) - len(miss3), "total": len(tot3), "excluded": len(exc3),
+                             "missing": [list(map(str, m_)) for m_ in miss3[:15]]}
+    if c.thorough and replay is None and miss:
+        c.broken.append("pairwise coverage incomplete: %d of %d applicable factor pairs never generated, e.g. %s" % (len(miss), len(tot), miss[:3]))
+    if c.thorough and replay is None and miss3:
+        c.broken.append("3-way coverage of %s incomplete: %d of %d, e.g. %s" % (CORE3, len(miss3), len(tot3), miss3[:2]))
     for k in ("worst_mass", "worst_mom", "worst_com", "worst_hs_mom", "worst_hs_energy", "worst_integ_mom"):
         stats[k] = float("%.3g" % stats[k])
     stats["N"] = {str(k): v for k, v in sorted(stats["N"].items())}
